@@ -26,6 +26,17 @@ use crate::error::Error;
 
 use super::{ExprType, FlagsState, GeneratorState};
 
+// Does the evaluation of this condition go through && or || ?
+fn has_shortcut(e: &Expr) -> bool {
+    match e {
+        Expr::BinOp { lhs, op, rhs } => {
+            matches!(op, Operation::Land | Operation::Lor) || has_shortcut(lhs) || has_shortcut(rhs)
+        }
+        Expr::Not(e) | Expr::Neg(e) | Expr::BNot(e) => has_shortcut(e),
+        _ => false,
+    }
+}
+
 impl<'a, 'b> GeneratorState<'a> {
     pub(crate) fn generate_ternary(
         &mut self,
@@ -1049,7 +1060,11 @@ impl<'a, 'b> GeneratorState<'a> {
                 self.generate_statement(body)?;
                 self.asm(JMP, &ExprType::Label(ifend_label.clone()), 0, false)?;
                 self.label(&else_label)?;
-                self.flags = saved_flags;
+                // The flags known after the condition are those of its last test:
+                // with && or || the else branch is also reached from the earlier tests
+                if !has_shortcut(condition) {
+                    self.flags = saved_flags;
+                }
                 self.generate_statement(else_statement)?;
                 self.label(&ifend_label)?;
             }
